@@ -91,7 +91,8 @@ TEXTS = {
                 note=_ENC + 'a contract cannot state a complexity class: the growth law is monitored only.'),
     'C13': dict(category='other', engine='pyvc+bounded', technique=_PYVC + '; ' + _BOUNDED,
                 text='Proved for a symbolic printer, value and exception class (59 obligations): _run_pretty restores the visited set on every '
-                     'normal and exceptional exit, returns the marker iff the id is on the path, set.remove never fails; derived contexts share the '
+                     'normal and exceptional exit, returns the marker iff the id is on the path, set.remove never fails; start_visit / end_visit / '
+                     'is_visited add, remove (present) and test exactly id(value); derived contexts share the '
                      'visited set, python_to_sdocs starts every call with a new one (family context). Bounded-exhaustive: '
                      'every rooted graph of list/dict/tuple nodes up to 3 (4) nodes up to isomorphism, random up to 10 nodes, failing user '
                      'printers: markers exactly at back edges, shared nodes in full, no residue; plus exhaustive PrettyContext contracts.',
